@@ -202,8 +202,6 @@ def rules(ctx, db):
 R5_EXCEPTIONS = {
     ("<compio_buf::io_vec_buf::VectoredBufIter<T> as compio_buf::io_buf::IoBuf>::as_init", "index-RangeFrom"):
         "`filled` is the length last recorded through SetLen for the current member; the SetLen contract bounds it by that member's length",
-    ("<compio_buf::slice::VectoredSlice<T> as compio_buf::io_vec_buf::IoVectoredBuf>::iter_slice", "index-RangeFrom"):
-        "`offset` was computed by IoVectoredBuf::slice against this very member (R2 checks that loop); the view is immutable afterwards",
     ("<compio_buf::slice::VectoredSlice<T> as compio_buf::io_vec_buf::IoVectoredBufMut>::iter_uninit_slice", "index-RangeFrom"):
         "`offset` was computed by IoVectoredBufMut::slice_mut against this very member's length, which its capacity bounds",
 }
